@@ -620,3 +620,89 @@ Qed.
 
 Lemma number_from_length : forall l i p, length (number_from i p l) = length l.
 Proof. induction l as [|s l IH]; intros; cbn; [reflexivity|now rewrite IH]. Qed.
+
+(* ---- what the walker accepts ------------------------------------------------------------- *)
+Definition requested_filters (e : entity) : list bytes :=
+  match e_query e with Some q => q_default_status q | None => [] end.
+
+Lemma expand_ok_inv : forall e cs, expand e = Ok cs ->
+  exists fl, default_filters e (requested_filters e) = Some fl
+             /\ nodup_bytes (map s_name (e_summaries e)) = true /\ cs = expand_with e fl.
+Proof.
+  intros e cs H. unfold expand in H. fold (requested_filters e) in H.
+  destruct (default_filters e (requested_filters e)) as [fl|]; [|discriminate].
+  destruct (nodup_bytes _) eqn:En; [|discriminate]. inversion H. exists fl. auto.
+Qed.
+
+Lemma expand_total : forall e, is_panic (expand e) = false /\ expand e <> OutOfFuel.
+Proof.
+  intros e. unfold expand. destruct (default_filters e _); [|split; [reflexivity|discriminate]].
+  destruct (nodup_bytes _); split; try reflexivity; discriminate.
+Qed.
+
+(* default filters name declared statuses, one per requested filter, in order *)
+Lemma default_filters_spec : forall e l fl, default_filters e l = Some fl ->
+  Forall (fun f => existsb (bytes_eqb f) (e_status e) = true) l
+  /\ fl = map (fun f => to_screaming_snake (e_name e) ++ bs "_STATUS_" ++ to_screaming_snake f) l.
+Proof.
+  intros e l. induction l as [|f l IH]; intros fl H; cbn [default_filters] in H.
+  - inversion H. split; [constructor|reflexivity].
+  - unfold find_status in H. destruct (existsb (bytes_eqb f) (e_status e)) eqn:Ef; [|discriminate].
+    destruct (default_filters e l) as [t|]; [|discriminate]. inversion H; subst.
+    destruct (IH t eq_refl) as [HF ->]. split; [constructor; assumption|reflexivity].
+Qed.
+
+(* ---- State / Event shapes, spelled out ------------------------------------------------------ *)
+Definition shape (f : ofield) := (f_json f, f_type f, f_required f, f_flatten f).
+
+Theorem state_event_shapes : forall e fl,
+  map shape (m_fields (state_msg e fl)) =
+    [ (bs "metadata", TObject (bs "j5.state.v1") (bs "StateMetadata"), true, false);
+      (bs "keys", TObject [] (m_name (keys_msg e)), true, true);
+      (bs "data", TObject [] (m_name (data_msg e)), true, false);
+      (bs "status", TEnum [] (component_name e (bs "Status")), true, false) ]
+  /\ map shape (m_fields (event_msg e)) =
+    [ (bs "metadata", TObject (bs "j5.state.v1") (bs "EventMetadata"), true, false);
+      (bs "keys", TObject [] (m_name (keys_msg e)), true, true);
+      (bs "event", TOneof [] (m_name (event_type_msg e)), true, false) ]
+  /\ m_psm (keys_msg e) = Some (snake_name e, 1) /\ m_psm (state_msg e fl) = Some (snake_name e, 2)
+  /\ m_psm (event_msg e) = Some (snake_name e, 3) /\ m_psm (data_msg e) = Some (snake_name e, 4).
+Proof. intros e fl. repeat split. Qed.
+
+(* ---- documented names for UpperCamel entity names --------------------------------------------- *)
+Theorem names_upper_camel : forall e,
+  upper_word (e_name e) = true ->
+  camel_name e = e_name e /\ query_prefix e = e_name e
+  /\ (ends_cap (e_name e) = false ->
+      to_camel (camel_name e ++ bs "Publish") ++ bs "Topic" = e_name e ++ bs "PublishTopic").
+Proof.
+  intros e H. unfold camel_name, query_prefix, snake_name.
+  rewrite (to_camel_upper_word _ H), (to_camel_to_snake_upper_word _ H). repeat split.
+  intros He. rewrite to_camel_app_word; [|now apply upper_word_ident|assumption|reflexivity].
+  rewrite (to_camel_upper_word _ H), <- app_assoc. reflexivity.
+Qed.
+
+(* ---- the defect repaired by the fix: commit d657973 -------------------------------------------
+   Before, acceptState/acceptEventOneof/acceptEvent named their schemas
+   ToCamel(entity.Name + suffix); every reference used componentName(suffix). *)
+Definition legacy_name (e : entity) (suffix : bytes) : bytes := to_camel (e_name e ++ suffix).
+
+Theorem legacy_naming_agrees_iff : forall e,
+  ident (e_name e) = true ->
+  (legacy_name e (bs "State") = component_name e (bs "State") <-> ends_cap (e_name e) = false)
+  /\ (legacy_name e (bs "EventType") = component_name e (bs "EventType") <-> ends_cap (e_name e) = false)
+  /\ (legacy_name e (bs "Event") = component_name e (bs "Event") <-> ends_cap (e_name e) = false).
+Proof.
+  intros e Hi. unfold legacy_name, component_name.
+  change (to_camel (bs "State")) with (bs "State").
+  change (to_camel (bs "EventType")) with (bs "EventType").
+  change (to_camel (bs "Event")) with (bs "Event").
+  repeat split; apply to_camel_app_word_iff; try assumption; reflexivity.
+Qed.
+
+Theorem legacy_naming_refuted :
+  exists e, ident (e_name e) = true /\ legacy_name e (bs "State") <> component_name e (bs "State").
+Proof.
+  exists (mkE (bs "foo.v1") (bs "FooS") [] [] [] [] [] [] [] None). split; [reflexivity|].
+  vm_compute. discriminate.
+Qed.
